@@ -205,6 +205,38 @@ func c10N1(l *core.Ledger, r *rt) {
 	} else {
 		l.Unknown("C10-N1", "anchor/connect", token.NoPos, "channel.connect not found")
 	}
+	// reconnect: whoever asks for a reconnection gets an answer about the stream - it returns
+	// only after it has looked at the broken flag, tried to open a stream, or seen the node
+	// closed. An early way out ("somebody else is on it") turns the sender's per-request
+	// attempt into a no-op while the other goroutine sits in its back-off.
+	if rf := chanMethod(l, r, "reconnect"); rf != nil && len(rf.Blocks) > 0 {
+		via := func(n sx.Node) bool {
+			switch x := n.Instr().(type) {
+			case *ssa.Call:
+				if isFlagOp(&x.Call, "get", "streamBroken") {
+					return true
+				}
+				if x.Call.IsInvoke() && x.Call.Method.Name() == "NodeStream" {
+					return true
+				}
+			case *ssa.Select:
+				for _, st := range x.States {
+					if st.Dir == types.RecvOnly {
+						if _, isDone := isDoneOf(st.Chan); isDone {
+							return true
+						}
+					}
+				}
+			}
+			return false
+		}
+		w, must := sx.MustPassThrough(sx.Entry(rf), via, sx.IsReturn)
+		pos := rf.Pos()
+		if !must {
+			pos = sx.PosOf(w.Instr())
+		}
+		l.Check(must, "C10-N1", fnKey(rf)+"/attempts", pos, "returns only after reading the broken flag, trying to open a stream or seeing the node closed", "reconnect can return without having looked at the stream at all (no read of the broken flag, no attempt to open a stream): the sender's per-request reconnection becomes a no-op, e.g. while the reader waits out its back-off, and requests to a reachable node are answered 'stream is down'")
+	}
 }
 
 // evalFlags interprets a small boolean function of atomicFlag.get() calls.
